@@ -1,5 +1,6 @@
 import Abyss.Gen.FlushOps
 import Abyss.Props.RaBufMap
+import Abyss.DbSync
 /-!
 # The generated flush / sync functions reduce to the hand model's `flushLike`
 
@@ -7,6 +8,13 @@ import Abyss.Props.RaBufMap
 rendering in `FlushM`.  Here: each of the three functions, run on a map, is `MapSt.flushLike` with its per-file action
 (`mapFlush_eq_flushLike`, …); instantiated with the chunk-level buffer model `RaBuf` (`flush φ`, `sync φ`) it is
 `RaBuf.MapRb.flushLike φ` — the function the C03 theorems of `Abyss/Props/RaBufMap.lean` are about.
+
+Database level (second half): `Gen.dbApplyAll` (generated from `FileDbInner::applay_all`) on registries without repeated
+names applies the action to the maps in visiting order (`DbReg.all`: bytes, string, i64, u64, vu64, each in name order)
+and stops at the first error (`dbApplyAll_eq_applyList`); so `Gen.dbSyncAll` / `Gen.dbSyncData` are `flushLike` on every
+map in that order (`dbSyncAll_eq_applyList`, `dbSyncData_eq_applyList`), and with the hand model's per-map step
+`Gen.dbApplyAll` is the hand model `Buf.dbSync` of `Abyss/DbSync.lean` (`Buf.dbApplyAll_eq_dbSync`) — the function the
+theorems of `Abyss/Props/C03Db.lean` are about.
 -/
 namespace Abyss
 
@@ -87,4 +95,230 @@ theorem mapSyncData_eq_MapRb_flushLike (φ : Faults) (m : MapRb) (k : Nat) :
   rw [mapSyncData_eq_flushLike]; exact toSt_flushLike φ m k
 
 end RaBuf
+end Abyss
+
+/-! ## the database object: `Gen.dbApplyAll`, `Gen.dbSyncAll`, `Gen.dbSyncData` -/
+namespace Abyss
+variable {μ : Type}
+
+namespace DbReg
+@[simp] theorem get_set_self (r : DbReg μ) (k : RegKind) (l : List (String × μ)) : (r.set k l).get k = l := by
+  cases k <;> rfl
+@[simp] theorem set_set (r : DbReg μ) (k : RegKind) (l l' : List (String × μ)) : (r.set k l).set k l' = r.set k l' := by
+  cases k <;> rfl
+@[simp] theorem set_get (r : DbReg μ) (k : RegKind) : r.set k (r.get k) = r := by
+  cases k <;> rfl
+end DbReg
+
+/-- the shape of the five loops of `Gen.dbApplyAll` -/
+def regLoop (k : RegKind) (func : MapAct μ) : List String → DbRegM μ Unit
+  | [] => pure ()
+  | a :: rest => do
+    let b ← DbRegM.handle k a
+    DbRegM.call func b
+    regLoop k func rest
+
+theorem find_pre (a : String) (m : μ) (pre suf : List (String × μ)) (h : ∀ e' ∈ pre, e'.1 ≠ a) :
+    (pre ++ (a, m) :: suf).find? (fun e => decide (e.1 = a)) = some (a, m) := by
+  induction pre with
+  | nil => simp
+  | cons e pre ih =>
+    have h1 : e.1 ≠ a := h e (List.mem_cons_self ..)
+    have h2 := ih (fun e' he' => h e' (List.mem_cons_of_mem _ he'))
+    simp [h1, h2]
+
+theorem regUpdate_pre (a : String) (m m' : μ) (pre suf : List (String × μ)) (h : ∀ e' ∈ pre, e'.1 ≠ a) :
+    regUpdate a m' (pre ++ (a, m) :: suf) = pre ++ (a, m') :: suf := by
+  induction pre with
+  | nil => simp [regUpdate]
+  | cons e pre ih =>
+    have h1 : e.1 ≠ a := h e (List.mem_cons_self ..)
+    have h2 := ih (fun e' he' => h e' (List.mem_cons_of_mem _ he'))
+    simp [regUpdate, h1, h2]
+
+theorem regLoop_spec (k : RegKind) (func : MapAct μ) :
+    ∀ (suf pre : List (String × μ)) (r : DbReg μ), r.get k = pre ++ suf →
+      (∀ e ∈ suf, ∀ e' ∈ pre, e'.1 ≠ e.1) → (suf.map (·.1)).Nodup →
+      regLoop k func (suf.map (·.1)) r =
+        (if (applyList func suf).2 then some () else none, r.set k (pre ++ (applyList func suf).1)) := by
+  intro suf
+  induction suf with
+  | nil =>
+    intro pre r h _ _
+    have h' : r.get k = pre := by simpa using h
+    have : r.set k pre = r := by rw [← h', DbReg.set_get]
+    simp [regLoop, applyList, pure, this]
+  | cons e suf ih =>
+    intro pre r h hdis hnd
+    obtain ⟨a, m⟩ := e
+    have hpre : ∀ e' ∈ pre, e'.1 ≠ a := fun e' he' => hdis (a, m) (List.mem_cons_self ..) e' he'
+    simp only [List.map_cons, List.nodup_cons] at hnd
+    have hfind := find_pre a m pre suf hpre
+    have hupd := regUpdate_pre a m (func m).1 pre suf hpre
+    cases hok : (func m).2 with
+    | false =>
+      simp [regLoop, bind, DbRegM.handle, DbRegM.call, h, hfind, hupd, hok, applyList]
+    | true =>
+      have ih' := ih (pre ++ [(a, (func m).1)]) (r.set k (pre ++ (a, (func m).1) :: suf))
+        (by simp)
+        (by
+          intro e he e' he'
+          rcases List.mem_append.1 he' with h1 | h1
+          · exact hdis e (List.mem_cons_of_mem _ he) e' h1
+          · have : e' = (a, (func m).1) := by simpa using h1
+            subst this
+            intro heq
+            exact hnd.1 (List.mem_map.2 ⟨e, he, heq.symm⟩))
+        hnd.2
+      simp [regLoop, bind, DbRegM.handle, DbRegM.call, h, hfind, hupd, hok, applyList, ih']
+
+/-- one block of `applay_all`: the names of registry `k`, then the loop over them -/
+theorem regBlock_spec (k : RegKind) (func : MapAct μ) (r : DbReg μ) (hnd : ((r.get k).map (·.1)).Nodup) :
+    (do let keys ← DbRegM.keys k; regLoop k func keys : DbRegM μ Unit) r =
+      (if (applyList func (r.get k)).2 then some () else none, r.set k (applyList func (r.get k)).1) := by
+  have := regLoop_spec k func (r.get k) [] r (by simp) (by simp) hnd
+  simpa [bind, DbRegM.keys] using this
+
+theorem applyList_append (func : MapAct μ) (a b : List (String × μ)) :
+    applyList func (a ++ b) =
+      if (applyList func a).2 then ((applyList func a).1 ++ (applyList func b).1, (applyList func b).2)
+      else ((applyList func a).1 ++ b, false) := by
+  induction a with
+  | nil => simp [applyList]
+  | cons e a ih =>
+    obtain ⟨n, m⟩ := e
+    cases h1 : (func m).2 <;> cases h2 : (applyList func a).2 <;> simp [applyList, h1, h2, ih]
+
+theorem loop1_eq (func : MapAct μ) (ns : List String) : Gen.dbApplyAllLoop1 func ns = regLoop .bytes func ns := by
+  induction ns with
+  | nil => rfl
+  | cons a ns ih => simp only [Gen.dbApplyAllLoop1, regLoop, ih]
+theorem loop2_eq (func : MapAct μ) (ns : List String) : Gen.dbApplyAllLoop2 func ns = regLoop .string func ns := by
+  induction ns with
+  | nil => rfl
+  | cons a ns ih => simp only [Gen.dbApplyAllLoop2, regLoop, ih]
+theorem loop3_eq (func : MapAct μ) (ns : List String) : Gen.dbApplyAllLoop3 func ns = regLoop .i64 func ns := by
+  induction ns with
+  | nil => rfl
+  | cons a ns ih => simp only [Gen.dbApplyAllLoop3, regLoop, ih]
+theorem loop4_eq (func : MapAct μ) (ns : List String) : Gen.dbApplyAllLoop4 func ns = regLoop .u64 func ns := by
+  induction ns with
+  | nil => rfl
+  | cons a ns ih => simp only [Gen.dbApplyAllLoop4, regLoop, ih]
+theorem loop5_eq (func : MapAct μ) (ns : List String) : Gen.dbApplyAllLoop5 func ns = regLoop .vu64 func ns := by
+  induction ns with
+  | nil => rfl
+  | cons a ns ih => simp only [Gen.dbApplyAllLoop5, regLoop, ih]
+
+/-- one block of `applay_all` followed by the rest of the function -/
+theorem regBlock_bind {α : Type} (k : RegKind) (func : MapAct μ) (r : DbReg μ) (hnd : ((r.get k).map (·.1)).Nodup)
+    (f : Unit → DbRegM μ α) :
+    (bind (DbRegM.keys k) (fun keys => bind (regLoop k func keys) f)) r =
+      if (applyList func (r.get k)).2 then f () (r.set k (applyList func (r.get k)).1)
+      else (none, r.set k (applyList func (r.get k)).1) := by
+  have := regLoop_spec k func (r.get k) [] r (by simp) (by simp) hnd
+  cases h : (applyList func (r.get k)).2 <;> simp [bind, DbRegM.keys, this, h]
+
+/-- **`applay_all`, as generated, applies `func` to the maps in visiting order (bytes, string, i64, u64, vu64; each in
+name order) and stops at the first error** — for registries without repeated names (a `BTreeMap`) -/
+theorem dbApplyAll_eq_applyList (func : MapAct μ) (r : DbReg μ) (hnd : ∀ k, ((r.get k).map (·.1)).Nodup) :
+    (((Gen.dbApplyAll func).run r).1.all, ((Gen.dbApplyAll func).run r).2) = applyList func r.all := by
+  obtain ⟨b, s, i, u, v⟩ := r
+  have hb : (b.map (·.1)).Nodup := hnd .bytes
+  have hs : (s.map (·.1)).Nodup := hnd .string
+  have hi : (i.map (·.1)).Nodup := hnd .i64
+  have hu : (u.map (·.1)).Nodup := hnd .u64
+  have hv : (v.map (·.1)).Nodup := hnd .vu64
+  have e : ∀ r : DbReg μ, (Gen.dbApplyAll func) r =
+      (bind (DbRegM.keys .bytes) (fun keys => bind (regLoop .bytes func keys) (fun _ =>
+       bind (DbRegM.keys .string) (fun keys => bind (regLoop .string func keys) (fun _ =>
+       bind (DbRegM.keys .i64) (fun keys => bind (regLoop .i64 func keys) (fun _ =>
+       bind (DbRegM.keys .u64) (fun keys => bind (regLoop .u64 func keys) (fun _ =>
+       bind (DbRegM.keys .vu64) (fun keys => bind (regLoop .vu64 func keys) (fun _ => pure ()))))))))))) r := by
+    intro r
+    simp only [Gen.dbApplyAll, loop1_eq, loop2_eq, loop3_eq, loop4_eq, loop5_eq]
+  simp only [DbRegM.run, e]
+  rw [regBlock_bind .bytes func ⟨b, s, i, u, v⟩ hb]
+  simp only [DbReg.get, DbReg.set, DbReg.all, List.append_assoc]
+  rw [applyList_append]
+  by_cases hB : (applyList func b).2 = true
+  case neg => simp [hB]
+  simp only [hB, if_true]
+  rw [regBlock_bind .string func ⟨_, s, i, u, v⟩ hs]
+  simp only [DbReg.get, DbReg.set]
+  rw [applyList_append]
+  by_cases hS : (applyList func s).2 = true
+  case neg => simp [hS]
+  simp only [hS, if_true]
+  rw [regBlock_bind .i64 func ⟨_, _, i, u, v⟩ hi]
+  simp only [DbReg.get, DbReg.set]
+  rw [applyList_append]
+  by_cases hI : (applyList func i).2 = true
+  case neg => simp [hI]
+  simp only [hI, if_true]
+  rw [regBlock_bind .u64 func ⟨_, _, _, u, v⟩ hu]
+  simp only [DbReg.get, DbReg.set]
+  rw [applyList_append]
+  by_cases hU : (applyList func u).2 = true
+  case neg => simp [hU]
+  simp only [hU, if_true]
+  rw [regBlock_bind .vu64 func ⟨_, _, _, _, v⟩ hv]
+  simp only [DbReg.get, DbReg.set]
+  by_cases hV : (applyList func v).2 = true
+  case neg => simp [hV]
+  simp [hV, pure]
+
+/-- `|o| o.sync_all()` on (map, fault counter), through `mapSyncAll_eq_flushLike` -/
+theorem onMap_mapSyncAll {β : Type} (p : FilePrims β) (o : MapSt β × Nat) :
+    FlushM.onMap (Gen.mapSyncAll p) o = (((o.1.flushLike p.syncAll o.2).1, (o.1.flushLike p.syncAll o.2).2.1),
+      (o.1.flushLike p.syncAll o.2).2.2) := by
+  simp only [FlushM.onMap, mapSyncAll_eq_flushLike]
+
+theorem onMap_mapSyncData {β : Type} (p : FilePrims β) (o : MapSt β × Nat) :
+    FlushM.onMap (Gen.mapSyncData p) o = (((o.1.flushLike p.syncData o.2).1, (o.1.flushLike p.syncData o.2).2.1),
+      (o.1.flushLike p.syncData o.2).2.2) := by
+  simp only [FlushM.onMap, mapSyncData_eq_flushLike]
+
+/-- `flushLike` of a map with its own fault counter as a `MapAct` -/
+def flushLikeAct {β : Type} (act : FileAct β) : MapAct (MapSt β × Nat) := fun o =>
+  (((o.1.flushLike act o.2).1, (o.1.flushLike act o.2).2.1), (o.1.flushLike act o.2).2.2)
+
+/-- **the database-level `sync_all`, as generated: `flushLike` with the files' `sync_all` on every open map in visiting
+order, up to the first error** -/
+theorem dbSyncAll_eq_applyList {β : Type} (p : FilePrims β) (r : DbReg (MapSt β × Nat))
+    (hnd : ∀ k, ((r.get k).map (·.1)).Nodup) :
+    (((Gen.dbSyncAll p).run r).1.all, ((Gen.dbSyncAll p).run r).2) = applyList (flushLikeAct p.syncAll) r.all := by
+  have : FlushM.onMap (Gen.mapSyncAll p) = flushLikeAct p.syncAll := funext (onMap_mapSyncAll p)
+  simpa [Gen.dbSyncAll, this] using dbApplyAll_eq_applyList (flushLikeAct p.syncAll) r hnd
+
+theorem dbSyncData_eq_applyList {β : Type} (p : FilePrims β) (r : DbReg (MapSt β × Nat))
+    (hnd : ∀ k, ((r.get k).map (·.1)).Nodup) :
+    (((Gen.dbSyncData p).run r).1.all, ((Gen.dbSyncData p).run r).2) = applyList (flushLikeAct p.syncData) r.all := by
+  have : FlushM.onMap (Gen.mapSyncData p) = flushLikeAct p.syncData := funext (onMap_mapSyncData p)
+  simpa [Gen.dbSyncData, this] using dbApplyAll_eq_applyList (flushLikeAct p.syncData) r hnd
+
+namespace Buf
+
+/-- the hand model's per-map step as a `MapAct` on (buffers, fault schedule) -/
+def syncAct (kind : SyncKind) : MapAct (MapBuf × Faults) := fun o =>
+  (((o.1.flushLike o.2 kind).1, o.2), (o.1.flushLike o.2 kind).2.1)
+
+/-- **the hand model `dbSync` (`Abyss/DbSync.lean`) is `applyList`** — the shape `Gen.dbApplyAll` has
+(`dbApplyAll_eq_applyList`) -/
+theorem dbSync_eq_applyList (kind : SyncKind) (l : List (String × MapBuf × Faults)) :
+    dbSync kind l = applyList (syncAct kind) l := by
+  induction l with
+  | nil => rfl
+  | cons e l ih =>
+    obtain ⟨n, m, φ⟩ := e
+    cases h : (m.flushLike φ kind).2.1 <;> simp [dbSync, applyList, syncAct, h, ih]
+
+/-- **`applay_all`, as generated, with the hand model's per-map step is the hand model `dbSync`** on the maps in visiting
+order -/
+theorem dbApplyAll_eq_dbSync (kind : SyncKind) (r : DbReg (MapBuf × Faults)) (hnd : ∀ k, ((r.get k).map (·.1)).Nodup) :
+    (((Gen.dbApplyAll (syncAct kind)).run r).1.all, ((Gen.dbApplyAll (syncAct kind)).run r).2) = dbSync kind r.all := by
+  rw [dbSync_eq_applyList]; exact dbApplyAll_eq_applyList (syncAct kind) r hnd
+
+end Buf
+
 end Abyss
